@@ -37,8 +37,15 @@ def main():
     sh(["git", "-C", "/repo", "worktree", "remove", "--force", wt])
     shutil.rmtree(wt, ignore_errors=True)
     shutil.rmtree(out, ignore_errors=True)
-    r = sh(["git", "-C", "/repo", "worktree", "add", "-f", "--detach", wt, "HEAD"])
-    if r.returncode != 0:
+    for attempt in range(5):   # concurrent evaluations contend on /repo/.git/worktrees
+        r = sh(["git", "-C", "/repo", "worktree", "add", "-f", "--detach", wt, "HEAD"])
+        if r.returncode == 0 and os.path.exists(os.path.join(wt, "go.mod")):
+            break
+        sh(["git", "-C", "/repo", "worktree", "remove", "--force", wt])
+        shutil.rmtree(wt, ignore_errors=True)
+        sh(["git", "-C", "/repo", "worktree", "prune"])
+        time.sleep(3 + attempt * 5)
+    else:
         print(r.stdout); sys.exit(2)
     result = dict(target=target, tier=tier, seed=int(seed), repo_head=sh(["git", "-C", "/repo", "rev-parse", "--short", "HEAD"]).stdout.strip(),
                   checks={})
